@@ -20,6 +20,8 @@ HOSTILE_NAMES = [
     " ", "／", "a/b", "\t", "ÿ", "퟿", "", "￿", "\U00010000", "\U0010ffff",
     # a non-BMP character followed by more text, names ending in a backslash, runs of blanks inside a name, lone quotes
     "\U0001F600x", "a\U0001F600b", "\\", "a\\", "x\\\\", "a  b", "'", '"', "\\'", '\\"',
+    # look-alikes: decomposed vs precomposed, full-width, invisible and blank-like characters, number-like names
+    "e\u0301", "\u00e9", "\uff11", "\uff41", "\u200b", "\ufeff", "\u0085", "\u00a0", "\u2029", "1e2", "0x1", "-0", " a", "a ", "01", "1.0", "+1", "E", "\u0130", "\u0131", "\u00df", "ss", "\u212a", "k", "K",
 ]
 PLAIN_NAMES = ["a", "b", "c", "d", "ab", "_x", "a1", "é", "\U0001F600"]
 
@@ -28,7 +30,9 @@ SH = re.compile(r"^[A-Za-z_\u0080-퟿-\U0010ffff][0-9A-Za-z_\u0080-퟿-\U0
 BLANKS = [" ", "\t", "\n", "\r", "\r\n", "  ", " \n\t"]
 BLANK_TAG = {" ": "SP", "\t": "HT", "\n": "LF", "\r": "CR", "\r\n": "CRLF", "  ": "SPSP", " \n\t": "MIX"}
 
-LIT_POOL = [None, True, False, 0, 1, 2, -1, 10, 100, 1.5, -0.5, 0.0, 1.0, 2.5e10, "", "a", "b", "ab", "é",
+LIT_POOL = [None, True, False, 0, 1, 2, -1, 10, 100, 1.5, -0.5, 0.0, 1.0, 2.5e10, 1e15, 123456789012, 0.1, 0.30000000000000004, -1e-7, 1e-300, 5e-324,
+            1e21, 1e22, 255, 256, 65535, 65536, 2147483647, 2147483648, 4294967296, 9007199254740991, -9007199254740991, "", "a", "b", "ab", "é",
+            "e\u0301", "\u212a", "K", "\u00df", "SS",
             "\U0001F600", "A", "a'b", 'q"r', "1", "true", "null", "\n", "a\\", "\\", "\U0001F600x", "a  b"]
 
 MAX_SAFE = 2**53 - 1
